@@ -8,6 +8,7 @@ from hypothesis import strategies as st
 
 from .. import gens, refs
 from ..runner import Sub
+from . import probes
 from .common import L, Checker, arr
 
 PROPERTY_ID = "C02"
@@ -17,6 +18,7 @@ RULE = ("triples (X,Y,Z) per class (SO2, SE2, SO3, SE3, UnitQuaternion, Twist2, 
         "NumPy reference evaluation; structured inverses vs a 50-digit mpmath inverse; quaternions compared as rotations "
         "(sign-free), twists through the reference exponential. Non-trivial: a non-commuting pair and (|t|>1e3 or angle "
         "within 1e-6 of pi or |n|>=2 or depth>=3).")
+RULE = RULE + probes.RULE_TEXT + (probes.AUG_TEXT if PROPERTY_ID in probes.AUG_PROPS else "")
 ASSUMPTIONS = ["tolerance 1e-9*max(1,|t|) with |t| the largest translation among operands, intermediates and result (1e-7 for twists)",
                "reference evaluation in float64 NumPy with transposed-rotation inverses; mpmath only for the inverse check"]
 
@@ -132,6 +134,8 @@ def tscale(cname, *Ms):
 
 
 def check_case(case):
+    if case.get("kind") in ("hist", "aug"):
+        return probes.run(case, PROPERTY_ID)
     return {"laws": _laws, "tree": _tree, "inverse": _inverse}[case["kind"]](case)
 
 
@@ -310,6 +314,8 @@ def _noncommuting(case):
 
 
 def classify(case):
+    if case.get("kind") in ("hist", "aug"):
+        return probes.classify(case)
     k = case["kind"]
     lab = {"kind:" + k: True}
     if k == "laws":
@@ -333,4 +339,5 @@ def subchecks(tier):
         Sub("laws", strategy=s_laws(), n=(350, 12000), shards=(10, 16)),
         Sub("tree", strategy=s_tree(4 if tier == "quick" else 5), n=(300, 6000), shards=(4, 16)),
         Sub("inverse", strategy=s_inverse(), n=(150, 3000), shards=(2, 8)),
+        *probes.subs(PROPERTY_ID),
     ]
